@@ -61,7 +61,7 @@ def configs(tier):
             add(spec('localp', rule, 2, 1, 2, order=1, limits=2), 'construct', '3')
         for rule in NESTED_GLOBAL:
             add(spec('global', rule, 2, 1, 3), 'load')
-            add(spec('global', rule, 2, 1, 2), 'construct', '3')
+            add(spec('global', rule, 2, 1, 2), 'construct', '3', max_paths=3, time_budget_s=120)
         for t in DEPTH_TYPES:
             add(spec('global', 'clenshaw-curtis', 2, 1, 4 if 'tensor' not in t else 2, t, aniso=1), 'load')
             add(spec('sequence', 'rleja', 2, 1, 4 if 'tensor' not in t else 2, t, aniso=1), 'load')
